@@ -2,7 +2,7 @@
 //! Every such entry point x every choice of who authorises, in every state of a bounded
 //! history of (successful) operations.
 
-use axmc::aux::{Caller, Probe};
+use axmc::aux::{Caller, NoopToken, Probe};
 use axmc::explore::*;
 use axmc::its::*;
 use axmc::refs::*;
@@ -28,6 +28,10 @@ enum Ep {
     /// the holder B sets A's allowance to zero (B is the named address here); afterwards A's
     /// delegated operations against B must be refused
     TokenRevoke,
+    /// the holder B re-approves A for the amount that is left, but only for 5 more ledgers
+    TokenShorten,
+    /// not an entry point: 20 ledgers pass (once)
+    AdvanceLedgers,
     GasPay,
     GasAdd,
     GwCallContract,
@@ -40,8 +44,8 @@ enum Ep {
     OperatorsExecute,
     ExampleSend,
 }
-const EPS: [Ep; 20] = [
-    Ep::TokenApprove, Ep::TokenTransfer, Ep::TokenTransferFrom, Ep::TokenBurn, Ep::TokenBurnFrom, Ep::TokenTransferFromNoAllowance, Ep::TokenBurnFromNoAllowance, Ep::TokenMintFrom, Ep::TokenRevoke,
+const EPS: [Ep; 22] = [
+    Ep::TokenApprove, Ep::TokenTransfer, Ep::TokenTransferFrom, Ep::TokenBurn, Ep::TokenBurnFrom, Ep::TokenTransferFromNoAllowance, Ep::TokenBurnFromNoAllowance, Ep::TokenMintFrom, Ep::TokenRevoke, Ep::TokenShorten, Ep::AdvanceLedgers,
     Ep::GasPay, Ep::GasAdd, Ep::GwCallContract, Ep::GwValidateMessage, Ep::ItsDeploy, Ep::ItsDeployRemote,
     Ep::ItsDeployRemoteCanonical, Ep::ItsTransfer, Ep::ItsTransferCanonical, Ep::OperatorsExecute, Ep::ExampleSend,
 ];
@@ -89,6 +93,12 @@ struct Model {
     successes: u8,
     /// B revoked A's allowance
     revoked: bool,
+    /// what is left of B's allowances to A and to K (3 each at the start), and until which
+    /// ledger B's allowance to A is valid
+    allow_left: [i128; 2],
+    allow_exp: u32,
+    seq: u32,
+    advanced: bool,
 }
 
 struct Ctx {
@@ -104,6 +114,7 @@ struct Ctx {
     t1_id: [u8; 32],
     t1k_id: [u8; 32],
     t2_id: [u8; 32],
+    noop: Address,
 }
 
 struct C07 {
@@ -130,7 +141,7 @@ impl C07 {
         let env = &w.env;
         let target_of = |ep: Ep| -> Address {
             match ep {
-                Ep::TokenApprove | Ep::TokenTransfer | Ep::TokenTransferFrom | Ep::TokenBurn | Ep::TokenBurnFrom | Ep::TokenTransferFromNoAllowance | Ep::TokenBurnFromNoAllowance | Ep::TokenMintFrom | Ep::TokenRevoke => ctx.tok.clone(),
+                Ep::TokenApprove | Ep::TokenTransfer | Ep::TokenTransferFrom | Ep::TokenBurn | Ep::TokenBurnFrom | Ep::TokenTransferFromNoAllowance | Ep::TokenBurnFromNoAllowance | Ep::TokenMintFrom | Ep::TokenRevoke | Ep::TokenShorten | Ep::AdvanceLedgers => ctx.tok.clone(),
                 Ep::GasPay | Ep::GasAdd => iw.gas.clone(),
                 Ep::GwCallContract | Ep::GwValidateMessage => iw.gw.clone(),
                 Ep::OperatorsExecute => ctx.ops.clone(),
@@ -146,7 +157,8 @@ impl C07 {
         };
         let who_ix = if named == Named::K { 1 } else { 0 };
         let one = if named == Named::Target || zero { 0i128 } else { 1 };
-        let amt = w.v(if alt { one + 1 } else { one });
+        let delegated = matches!(ep, Ep::TokenTransferFrom | Ep::TokenBurnFrom);
+        let amt = w.v(if delegated && one > 0 { if alt { 3i128 } else { 2 } } else if alt { one + 1 } else { one });
         let gas = |x: i128| to_val(env, &token_scval(&iw.sc(&iw.gas_token), if zero { 0 } else { x }));
         let gas1 = gas(if alt { 2 } else { 1 });
         let sv = |s: &str| to_val(env, &sstr(s));
@@ -161,6 +173,8 @@ impl C07 {
             Ep::TokenMintFrom => ("mint_from", vec![n, ctx.s.to_val(), amt]),
             // revocation: holder B approves A for zero (the named, authorising address is B)
             Ep::TokenRevoke => ("approve", vec![ctx.b.to_val(), ctx.a.to_val(), w.v(0i128), w.v(w.seq() + 500)]),
+            Ep::TokenShorten => ("approve", vec![ctx.b.to_val(), ctx.a.to_val(), w.v(m.allow_left[0]), w.v(w.seq() + 5)]),
+            Ep::AdvanceLedgers => ("balance", vec![ctx.a.to_val()]),
             Ep::GasPay => ("pay_gas", vec![ctx.s.to_val(), sv("chain"), sv("addr"), to_val(env, &sbytes(b"pl")), n, gas(if named == Named::Target { 1 } else if alt { 2 } else { 1 }), to_val(env, &sbytes(b""))]),
             Ep::GasAdd => ("add_gas", vec![ctx.s.to_val(), sv("msg"), n, gas(if named == Named::Target { 1 } else if alt { 2 } else { 1 })]),
             Ep::GwCallContract => ("call_contract", vec![n, sv("chain"), sv("addr"), to_val(env, &sbytes(if alt { b"other" } else { b"payld" }))]),
@@ -176,7 +190,11 @@ impl C07 {
             Ep::ItsDeployRemoteCanonical => ("deploy_remote_canonical_token", vec![iw.assets[0].to_val(), sv(X), n, gas1]),
             Ep::ItsTransfer | Ep::ItsTransferCanonical => {
                 let tid = if ep == Ep::ItsTransferCanonical { ctx.t2_id } else if named == Named::K { ctx.t1k_id } else { ctx.t1_id };
-                ("interchain_transfer", vec![n, to_val(env, &sbytes(&tid)), sv(X), to_val(env, &sbytes(b"0xdest")), amt, to_val(env, &ScVal::Void), gas(1)])
+                // when the service itself is named (nobody authorising), the gas token is an
+                // attacker-supplied contract whose transfer does nothing, and the service's custody is at stake
+                let g = if named == Named::Target { to_val(env, &token_scval(&iw.sc(&ctx.noop), 1)) } else { gas(1) };
+                let amt = if named == Named::Target { w.v(1i128) } else { amt };
+                ("interchain_transfer", vec![n, to_val(env, &sbytes(&tid)), sv(X), to_val(env, &sbytes(b"0xdest")), amt, to_val(env, &ScVal::Void), g])
             }
             Ep::OperatorsExecute => {
                 let args: soroban_sdk::Vec<Val> = soroban_sdk::Vec::from_slice(env, &[w.v(2i128), w.v(3i128)]);
@@ -232,7 +250,8 @@ impl Scenario for C07 {
         // mutual allowances with B
         let far = w.seq() + 1000;
         for who in [&a, &k] {
-            setup(&tok, "approve", &[b.to_val(), who.to_val(), w.v(500i128), w.v(far)]);
+            // B lets A (and K) spend exactly 3: delegated operations move 2, so the second one exceeds what is left
+            setup(&tok, "approve", &[b.to_val(), who.to_val(), w.v(3i128), w.v(far)]);
             setup(&tok, "approve", &[who.to_val(), b.to_val(), w.v(500i128), w.v(far)]);
         }
         // allowances that exist for other purposes: A and K have approved every contract of the
@@ -270,10 +289,14 @@ impl Scenario for C07 {
             );
             assert!(axmc::gw::approve(w, &iw.gw, &iw.keys, &iw.set, &axmc::gw::DOMAIN, &[m]).ok);
         }
+        let seq0 = w.seq();
         let (t1_id, t1k_id) = (ids[0], ids[1]);
+        // custody held by the service, and an attacker-supplied no-op gas token
+        iw.mint_asset(&iw.assets[0], &iw.its, 50);
+        let noop = env.register(NoopToken, ());
         (
-            Ctx { iw, tok, ops, probe, example, a, b, s, k, t1_id, t1k_id, t2_id },
-            Model { salts_used: [0, 0], consumed: [false, false], successes: 0, revoked: false },
+            Ctx { iw, tok, ops, probe, example, a, b, s, k, t1_id, t1k_id, t2_id, noop },
+            Model { salts_used: [0, 0], consumed: [false, false], successes: 0, revoked: false, allow_left: [3, 3], allow_exp: far, seq: seq0, advanced: false },
         )
     }
 
@@ -285,7 +308,17 @@ impl Scenario for C07 {
                 if m.successes >= self.max_successes && matches!(var, Var::Named | Var::AsCallingContract | Var::NamedRootOnly) {
                     continue;
                 }
-                if ep == Ep::TokenRevoke && !matches!(var, Var::Counterparty | Var::Named | Var::Stranger | Var::Nobody) {
+                // only three fresh salts per deployer are seated: a fourth deployment would collide
+                if ep == Ep::ItsDeploy {
+                    let ix = if var == Var::AsCallingContract { 1 } else { 0 };
+                    if m.salts_used[ix] >= 3 && matches!(var, Var::Named | Var::NamedRootOnly | Var::AsCallingContract) {
+                        continue;
+                    }
+                }
+                if matches!(ep, Ep::TokenRevoke | Ep::TokenShorten) && !matches!(var, Var::Counterparty | Var::Named | Var::Stranger | Var::Nobody) {
+                    continue;
+                }
+                if ep == Ep::AdvanceLedgers && (var != Var::Named || m.advanced) {
                     continue;
                 }
                 // a calling contract would have to pre-authorise the nested debits itself
@@ -294,7 +327,7 @@ impl Scenario for C07 {
                 if var == Var::AsCallingContract && self.nested(ep) {
                     continue;
                 }
-                if var == Var::NamesTargetItself && matches!(ep, Ep::ItsDeploy | Ep::ItsDeployRemote | Ep::ItsDeployRemoteCanonical | Ep::ItsTransfer | Ep::ItsTransferCanonical | Ep::ExampleSend | Ep::TokenTransferFrom | Ep::TokenBurnFrom | Ep::TokenTransferFromNoAllowance | Ep::TokenBurnFromNoAllowance | Ep::TokenMintFrom | Ep::TokenApprove) {
+                if var == Var::NamesTargetItself && matches!(ep, Ep::ItsDeploy | Ep::ItsDeployRemote | Ep::ItsDeployRemoteCanonical | Ep::ItsTransfer | Ep::ExampleSend | Ep::TokenTransferFrom | Ep::TokenBurnFrom | Ep::TokenTransferFromNoAllowance | Ep::TokenBurnFromNoAllowance | Ep::TokenMintFrom | Ep::TokenApprove) {
                     continue;
                 }
                 v.push(Act { ep, var });
@@ -309,6 +342,15 @@ impl Scenario for C07 {
         let env = &w.env;
         let h0 = w.state_hash();
         let ep = a.ep;
+        if ep == Ep::AdvanceLedgers {
+            out.kind = "advance";
+            out.accepted = true;
+            w.set_seq(w.seq() + 20);
+            w.set_time(w.now() + 100);
+            m.seq += 20;
+            m.advanced = true;
+            return;
+        }
         out.kind = match a.var { Var::Named => "named-authorises", Var::AsCallingContract => "named-is-calling-contract", _ => "someone-else" };
         let a_arr = [ctx.a.clone()];
         let call = match a.var {
@@ -354,21 +396,40 @@ impl Scenario for C07 {
         out.accepted = call.ok;
         let no_allowance = matches!(ep, Ep::TokenTransferFromNoAllowance | Ep::TokenBurnFromNoAllowance);
         // the revocation is B's own operation: accepted iff B (the counterparty principal) signs
-        if ep == Ep::TokenRevoke {
+        if ep == Ep::TokenShorten {
             let want = a.var == Var::Counterparty;
-            out.expect(call.ok == want, "auth.outcome", || format!("revocation by {:?}: ok={} ({})", a.var, call.ok, call.err));
+            out.expect(call.ok == want, "auth.outcome", || format!("re-approval by {:?}: ok={} ({})", a.var, call.ok, call.err));
             if call.ok && want {
-                m.revoked = true;
+                m.allow_exp = m.seq + 5;
+                m.revoked = false || m.revoked;
             } else if !call.ok {
                 out.expect(h0 == w.state_hash(), "refused-but-changed-state", || format!("{:?}", a));
             }
             return;
         }
-        let revoked_for_a = m.revoked
-            && matches!(ep, Ep::TokenTransferFrom | Ep::TokenBurnFrom)
-            && !matches!(a.var, Var::AsCallingContract);
+        if ep == Ep::TokenRevoke {
+            let want = a.var == Var::Counterparty;
+            out.expect(call.ok == want, "auth.outcome", || format!("revocation by {:?}: ok={} ({})", a.var, call.ok, call.err));
+            if call.ok && want {
+                m.revoked = true;
+                m.allow_left[0] = 0;
+            } else if !call.ok {
+                out.expect(h0 == w.state_hash(), "refused-but-changed-state", || format!("{:?}", a));
+            }
+            return;
+        }
+        let delegated = matches!(ep, Ep::TokenTransferFrom | Ep::TokenBurnFrom);
+        let k_calls = matches!(a.var, Var::AsCallingContract);
+        // what B still lets the spender take (the delegated operations move 2)
+        let allowance_ok = if !delegated {
+            true
+        } else if k_calls {
+            m.allow_left[1] >= 2
+        } else {
+            !m.revoked && m.allow_left[0] >= 2 && m.allow_exp >= m.seq
+        };
         let want = !no_allowance
-            && !revoked_for_a
+            && allowance_ok
             && match a.var {
                 Var::Named | Var::AsCallingContract => true,
                 Var::NamedRootOnly => !self.nested(ep),
@@ -384,6 +445,9 @@ impl Scenario for C07 {
         if !want { return; }
         m.successes += 1;
         let ix = if a.var == Var::AsCallingContract { 1 } else { 0 };
+        if delegated {
+            m.allow_left[ix] -= 2;
+        }
         match ep {
             Ep::ItsDeploy => m.salts_used[ix] += 1,
             Ep::GwValidateMessage => {
@@ -405,9 +469,9 @@ impl Scenario for C07 {
 fn main() {
     main_for(|tier| {
         let thorough = tier == "thorough";
-        let mut o = Opts::new(tier, if thorough { 4 } else { 2 });
+        let mut o = Opts::new(tier, if thorough { 4 } else { 3 });
         o.min_depth = 2;
-        o.rule = "20 entry points (token approve / transfer / transfer_from / burn / burn_from / transfer_from and burn_from against a holder who granted no allowance (always refused) / mint_from / a revocation by the holder after which the spender's delegated calls are refused; gas pay_gas / add_gas; gateway call_contract / validate_message; ITS deploy_interchain_token (naming the counterparty as minter) / deploy_remote_interchain_token / deploy_remote_canonical_token / interchain_transfer of a service-deployed and of a canonical token; operators execute; example send) x 12 authorisation modes {the named address; the counterparty / recipient; the contracts' owner; a stranger; nobody; the named address for an altered argument; the named address for the root call but not the nested debit or gas payment; the named address for the same function with other arguments; the named address being the calling contract; a contract naming someone else; the call naming the called contract itself with nobody authorising; all amounts and gas zero with nobody authorising}, in every state of all histories of successful operations up to the bound; accepted only in the three legitimate modes, ledger bit-identical otherwise".into();
+        o.rule = "20 entry points plus ledger advancement (token approve / transfer / transfer_from / burn / burn_from / transfer_from and burn_from against a holder who granted no allowance (always refused) / mint_from / a revocation and a shortening of the allowance by the holder after which (or after whose expiry) the spender's delegated calls are refused; the holder's allowance is 3 and delegated calls move 2, so a second one exceeds it; gas pay_gas / add_gas; gateway call_contract / validate_message; ITS deploy_interchain_token (naming the counterparty as minter) / deploy_remote_interchain_token / deploy_remote_canonical_token / interchain_transfer of a service-deployed and of a canonical token; operators execute; example send) x 12 authorisation modes {the named address; the counterparty / recipient; the contracts' owner; a stranger; nobody; the named address for an altered argument; the named address for the root call but not the nested debit or gas payment; the named address for the same function with other arguments; the named address being the calling contract; a contract naming someone else; the call naming the called contract itself with nobody authorising; all amounts and gas zero with nobody authorising}, in every state of all histories of successful operations up to the bound; accepted only in the three legitimate modes, ledger bit-identical otherwise".into();
         (C07 { max_successes: if thorough { 4 } else { 2 } }, o)
     });
 }
